@@ -29,7 +29,7 @@ ASSUMPTIONS = [
     "statuses are injected after the real solve has run (the solver holds a genuine solution when the inconclusive status is reported)",
     "elapsed-time exits (MinFlowDecompCycles, NumPathsOptimization) are triggered by replacing the solve_time_elapsed property from outside",
     "parameters of the loop models that are not solver statuses (lower bound without MinGenSet, |E|, greedy applicability per k, number of paths of the guessed-weights solution, objective values) are read from the implementation",
-    "subgraph-scanning lower bound of MinFlowDecomp is not modelled (it needs more than 21 nodes; inputs here have at most 8)",
+    "the subgraph-scanning lower bound of MinFlowDecomp is exercised on chains of diamonds with 22-43 nodes (one or two windows) whose minimum is known in closed form; parameters of the nested window searches are read from the nested objects the run created",
 ]
 TRUSTED = ["model: coq/theories/Search.v; proofs SearchProofs1.v, SearchProofs2.v"]
 
@@ -86,6 +86,14 @@ class Tap:
 
         SW.optimize = optimize; SW.get_model_status = get_model_status
         self.run_id = 0
+        self.mfd_instances = []; self.record_mfd = False
+        self._orig_mfd_init = fp.MinFlowDecomp.__init__
+
+        def mfd_init(obj, *a, **kw):
+            if tap.record_mfd:
+                tap.mfd_instances.append(obj)
+            return tap._orig_mfd_init(obj, *a, **kw)
+        fp.MinFlowDecomp.__init__ = mfd_init
         self._props = {}
         for cls in (fp.MinFlowDecompCycles, fp.NumPathsOptimization):
             self._props[cls] = cls.__dict__["solve_time_elapsed"]
@@ -93,28 +101,34 @@ class Tap:
             cls.solve_time_elapsed = property((lambda o: (lambda s: 1e18 if tap.clock_over else o.fget(s)))(orig))
 
     def _owner_tag(self):
-        f = sys._getframe(2)
+        f = sys._getframe(2); tag = None; mfds = []
         while f is not None:
             s = f.f_locals.get("self")
             if s is not None and not isinstance(s, self.SW):
-                if isinstance(s, self.fp.MinGenSet):
-                    return "mgs"
-                if getattr(s, "solution_weights_superset", None) is not None:
-                    return "gw"
-                oo = getattr(s, "optimization_options", None)
-                if isinstance(oo, dict) and oo.get("given_weights") is not None:
-                    return "gw"
-                return "main"
+                if tag is None:
+                    if isinstance(s, self.fp.MinGenSet):
+                        tag = "mgs"
+                    elif getattr(s, "solution_weights_superset", None) is not None:
+                        tag = "gw"
+                    else:
+                        oo = getattr(s, "optimization_options", None)
+                        tag = "gw" if isinstance(oo, dict) and oo.get("given_weights") is not None else "main"
+                if isinstance(s, self.fp.MinFlowDecomp) and not any(s is x for x in mfds):
+                    mfds.append(s)
             f = f.f_back
-        return "main"
+        if len(mfds) >= 2:
+            return "win"          # made by a nested MinFlowDecomp of the subgraph-scanning lower bound
+        return tag or "main"
 
     def reset(self, inject=None, over_after=None):
         self.run_id += 1
+        self.mfd_instances = []
         self.log = []; self.inject = dict(inject or {}); self.over_after = over_after; self.clock_over = False
         self.mismatch = []
 
     def close(self):
         self.SW.optimize = self._orig_opt; self.SW.get_model_status = self._orig_st
+        self.fp.MinFlowDecomp.__init__ = self._orig_mfd_init
         for cls, p in self._props.items():
             cls.solve_time_elapsed = p
 
@@ -162,6 +176,34 @@ def flow_cyclic(rng):
         es = [[u, v, flow[(u, v)]] for (u, v) in G.edges() if flow[(u, v)] > 0]
         if es:
             return es
+
+
+def diamond_chain(rng, two_windows=False):
+    """Chain of single edges and diamonds carrying flow 4 (splits 1|3 and 2|2), at least 22 nodes so that the
+    subgraph-scanning lower bound of MinFlowDecomp has a window.  Minimum number of paths in closed form:
+    1 without diamonds, 2 with one kind of split, 3 with both kinds (1|3 and 2|2 need weights {1,1,2})."""
+    target = rng.randint(41, 43) if two_windows else rng.randint(22, 27)
+    nd = rng.choice([1, 2, 2, 3]); kinds = [rng.choice(["13", "22"]) for _ in range(nd)]
+    if rng.random() < 0.5 and nd >= 2:
+        kinds[0], kinds[1] = "13", "22"
+    n_edges_blocks = max(0, target - 1 - 3 * nd)
+    blocks = kinds + ["e"] * n_edges_blocks
+    head = blocks[:]; rng.shuffle(head)
+    if rng.random() < 0.6:          # diamonds early, so that they fall into the first window
+        head = kinds + ["e"] * n_edges_blocks
+        front = head[:8]; rng.shuffle(front); head = front + head[8:]
+    edges = []; cur = "a000"; c = 0
+    for b in head:
+        c += 1
+        if b == "e":
+            nxt = "a%03d" % c; edges.append([cur, nxt, 4]); cur = nxt
+        else:
+            x, y, nxt = "x%03d" % c, "y%03d" % c, "a%03d" % c
+            f1, f2 = (1, 3) if b == "13" else (2, 2)
+            if rng.random() < 0.5:
+                f1, f2 = f2, f1
+            edges += [[cur, x, f1], [x, nxt, f1], [cur, y, f2], [y, nxt, f2]]; cur = nxt
+    return edges, len(set(kinds)) + 1
 
 
 def graph_of(edges, perturb=None):
@@ -217,6 +259,8 @@ class Spec:
     def __init__(self, cls, inp, opts, build, request, count, chosen, p2=True, state=None, request2=None):
         self.cls = cls; self.inp = inp; self.opts = opts; self.build = build; self.request = request
         self.count = count; self.chosen = chosen; self.p2 = p2
+        self.known_min = None          # closed-form minimum of the instance, where the generator knows it
+        self.exhaust = True
         self.state = state or (lambda m: None)                      # what a later solve() on the same object starts from
         self.request2 = request2 or (lambda obs, st: request(obs))  # model request for that later call
 
@@ -229,6 +273,7 @@ def observe(tap, spec, inject, over_after=None, again=None):
         pre = getters(m, spec.count)
     else:
         m = again["m"]; state = spec.state(m); pre = None
+    tap.mfd_instances = []; tap.record_mfd = True
     try:
         r = m.solve(); outcome = "S" if r else "N"
         if r not in (True, False):
@@ -239,11 +284,13 @@ def observe(tap, spec, inject, over_after=None, again=None):
         outcome = "C"
     except Exception as e:                       # nothing else may escape solve()
         outcome = "E:" + type(e).__name__
-    log = tap.log; mism = list(tap.mismatch)
+    tap.record_mfd = False
+    log = tap.log; mism = list(tap.mismatch); nested = list(tap.mfd_instances)
     tap.inject = {}; tap.over_after = None         # no injection while reading results
     post = getters(m, spec.count)
     obs = {"outcome": outcome, "pre": pre, "post": post, "used": len(log), "log": log, "mismatch": mism,
-           "aux": sum(1 for e in log if e["tag"] in ("mgs", "gw")), "k": None, "m": m, "chosen_status": None,
+           "aux": sum(1 for e in log if e["tag"] in ("mgs", "gw", "win")), "k": None, "m": m, "chosen_status": None,
+           "nested": nested,
            "inject": dict(inject), "over_after": over_after}
     if outcome == "S":
         obs["k"] = post.get("k_solution")
@@ -281,10 +328,40 @@ def spec_mfd(fp, edges, opts):
         return fp.MinFlowDecomp(graph_of(edges), flow_attr="flow", weight_type=int,
                                 optimization_options=copy.deepcopy(opts), solver_options=dict(SO))
     G = graph_of(edges)
-    o0 = {k: v for k, v in opts.items() if k != "use_min_gen_set_lowerbound"}
+    o0 = {k: v for k, v in opts.items() if k not in ("use_min_gen_set_lowerbound", "use_subgraph_scanning_lowerbound")}
     lb0 = fp.MinFlowDecomp(graph_of(edges), flow_attr="flow", weight_type=int, optimization_options=o0,
                            solver_options=dict(SO)).get_lowerbound_k()
     ne = G.number_of_edges(); nw = len({f for _, _, f in edges})
+    scanning = bool(opts.get("use_subgraph_scanning_lowerbound"))
+    greedy_cache = {}
+
+    def greedy_list(H, oo):
+        if not oo.get("optimize_with_greedy", True):
+            return [False] * (H.number_of_edges() + 2)
+        key = tuple((u, v, d.get("flow")) for u, v, d in H.edges(data=True))
+        if key not in greedy_cache:
+            out = []
+            for k in range(H.number_of_edges() + 2):
+                try:
+                    out.append(bool(fp.kFlowDecomp(H, flow_attr="flow", k=k, weight_type=int,
+                                                   optimization_options=copy.deepcopy(oo), solver_options=dict(SO)).is_solved()))
+                except ValueError:
+                    out.append(False)
+            greedy_cache[key] = out
+        return greedy_cache[key]
+
+    def window_params(W):
+        """parameters of one nested MinFlowDecomp of the scanning lower bound, read from the object the run created"""
+        oo = dict(W.optimization_options)
+        oo0 = {k: v for k, v in oo.items() if k not in ("use_min_gen_set_lowerbound", "use_subgraph_scanning_lowerbound")}
+        l0 = fp.MinFlowDecomp(W.G, flow_attr="flow", weight_type=int, optimization_options=oo0, solver_options=dict(SO)).get_lowerbound_k()
+        gwm = getattr(W, "_given_weights_model", None); gw = 0
+        if gwm is not None and gwm.is_solved():
+            gw = len(gwm.get_solution(remove_empty_paths=True)["paths"])
+        flows = {d["flow"] for _, _, d in W.G.edges(data=True) if "flow" in d}
+        g = greedy_list(W.G, oo)
+        return [l0, W.G.number_of_edges(), bool(oo.get("use_min_gen_set_lowerbound")), len(flows),
+                bool(oo.get("optimize_with_guessed_weights")), gw, len(g), g]
     cuts = 0
     if opts.get("use_min_gen_set_lowerbound_partition_constraints"):
         probe = fp.MinFlowDecomp(graph_of(edges), flow_attr="flow", weight_type=int, optimization_options=dict(o0), solver_options=dict(SO))
@@ -292,20 +369,18 @@ def spec_mfd(fp, edges, opts):
             min_constraint_len=fp.MinFlowDecomp.use_min_gen_set_lowerbound_partition_constraints_min_constraint_len,
             limit_num_constraints=fp.MinFlowDecomp.use_min_gen_set_lowerbound_partition_constraints_limit_num_constraints)
         cuts = sum(len(c) - 1 for c in pcs)
-    gr = []
-    for k in range(ne + 2):
-        try:
-            gr.append(bool(fp.kFlowDecomp(graph_of(edges), flow_attr="flow", k=k, weight_type=int,
-                                          optimization_options=copy.deepcopy(opts), solver_options=dict(SO)).is_solved()))
-        except ValueError:
-            gr.append(False)
+    gr = greedy_list(G, opts)
 
     def request(obs):
         m = obs["m"]; gwm = getattr(m, "_given_weights_model", None); gw = 0
         if gwm is not None and gwm.is_solved():
             gw = len(gwm.get_solution(remove_empty_paths=True)["paths"])
-        return "mfd " + common.toks(SWITCH[K_MGS], SWITCH[K_EXIT], UPPER_EXCL, lb0, ne, bool(opts.get("use_min_gen_set_lowerbound")), nw, cuts,
-                                    bool(opts.get("optimize_with_guessed_weights")), gw, len(gr), gr, raw_toks(obs["log"]))
+        head = common.toks(SWITCH[K_MGS], SWITCH[K_EXIT], UPPER_EXCL, lb0, ne, bool(opts.get("use_min_gen_set_lowerbound")), nw, cuts,
+                           bool(opts.get("optimize_with_guessed_weights")), gw, len(gr), gr)
+        if scanning:
+            ws = [window_params(W) for W in obs["nested"] if W is not m]
+            return "mfdscan " + head + " " + common.toks(len(ws), ws, raw_toks(obs["log"]))
+        return "mfd " + head + " " + common.toks(raw_toks(obs["log"]))
     def state(m):
         gwm = getattr(m, "_given_weights_model", None)
         g0 = len(gwm.get_solution(remove_empty_paths=True)["paths"]) if gwm is not None and gwm.is_solved() else None
@@ -432,7 +507,10 @@ def spec_npo(fp, edges, perturb, mtype, crit, extra, timed):
 
 def rebuild_spec(fp, cls, inp, opts):
     if cls == "MinFlowDecomp":
-        return spec_mfd(fp, inp["edges"], opts)
+        sp = spec_mfd(fp, inp["edges"], opts)
+        if inp.get("known_min") is not None:
+            sp.known_min = inp["known_min"]; sp.exhaust = False
+        return sp
     if cls == "MinFlowDecompCycles":
         return spec_mfdc(fp, inp["edges"], opts, inp.get("timed", False))
     if cls in ("MinPathCover", "MinPathCoverCycles"):
@@ -455,6 +533,8 @@ def property_failures(spec, obs, nat):
     if out == "S":
         if post["is_solved"] != "T" or post["get_solution"] != "D" or post.get("get_objective_value", "D") != "D":
             bad.append(("solve() returned True but is_solved/getters say " + repr({k: post[k] for k in post if k != "objective"}), None, "post"))
+        if spec.known_min is not None and obs["k"] != spec.known_min:
+            bad.append(("solve() returned True with %s paths, the minimum of this instance is %d" % (obs["k"], spec.known_min), None, "min"))
         if obs.get("chosen_status") is not None and obs["chosen_status"] != "kOptimal":
             bad.append(("solve() returned True but the returned model's last status was " + obs["chosen_status"], None, "post"))
         if obs.get("chosen_solved") is not True:
@@ -529,7 +609,7 @@ def injection_plans(nat_log, spec, extend, timed):
     for p in range(L):
         for s in INCONCLUSIVE:
             plans.append(({p: s}, None))
-    if L and spec.cls != "NumPathsOptimization":
+    if L and spec.cls != "NumPathsOptimization" and spec.exhaust:
         # exhaust the range: every k from the last natural position on is reported infeasible (pins the upper end)
         plans.append(({q: "kInfeasible" for q in range(L - 1, L + 14)}, None))
     if L and nat_log[-1]["tag"] == "main":
@@ -769,6 +849,17 @@ def run(ctx):
             edges = flow_dag(rng)
             for opts in ([MFD_OPTS[0]] + rng.sample(MFD_OPTS[1:], 3)):
                 run_spec(ctx, tap, spec_mfd(fp, edges, opts), extend=2)
+        # MinFlowDecomp with the subgraph-scanning lower bound (nested searches over windows of 20 nodes)
+        for i in range(max(2, n // 5)):
+            rng = ctx.rng("mfdscan", i)
+            edges, kmin = diamond_chain(rng, two_windows=(i == 1))
+            base = {"use_subgraph_scanning_lowerbound": True, "optimize_with_greedy": False}
+            variants = [base, dict(base, use_min_gen_set_lowerbound=True), dict(base, optimize_with_guessed_weights=True),
+                        {"use_subgraph_scanning_lowerbound": True}]
+            for opts in ([base] + rng.sample(variants[1:], 1)):
+                sp = spec_mfd(fp, edges, opts); sp.known_min = kmin; sp.exhaust = False
+                sp.inp = {"edges": edges, "known_min": kmin}
+                run_spec(ctx, tap, sp, extend=0)
         for i in range(max(1, n // 2)):
             rng = ctx.rng("mfdc", i)
             edges = flow_cyclic(rng)
